@@ -222,6 +222,12 @@ class RegistryWorld(World):
         self.removed_amount = self.iv('removed_delegation', 0, CAP)
         self.can_redelegate = self.iv('can_redelegate', 0, CAP)
         self.denom = I.S('usei')
+        # the chain's validator set (only consulted by code that asks for it): two names that may or may not coincide with
+        # registered validators
+        self.chain_vals = [self.sv('chain_validator_%d' % i) for i in range(2)]
+
+    def q_all_validators(self, st):
+        yield st, [Agg('Validator', (v, DEC(0), DEC(E18), DEC(E18))) for v in self.chain_vals]
 
     def q_all_delegations(self, st, delegator):
         yield st, [self.mk.struct('Delegation', 'cosmwasm_std', delegator=self.mk.addr(self.hub), validator=v,
@@ -378,9 +384,21 @@ def _token_addresses_fixed(ctx):
 OBLIGATIONS.append(('hub_token_addresses_fixed', _token_addresses_fixed))
 
 
+def _dispatcher_principal(ctx):
+    """'dispatcher swap/dispatch (hub only)' in an evolved state: the hub (and the reward contract) the owner designates with
+    UpdateConfig is the one stored when the call returns, whatever other fields the same message carries — so the next
+    transaction's sender check compares with the designated principal (world, claims and replay of C20's
+    dispatcher_update_config obligation)"""
+    from checks.c20 import OBLIGATIONS as O20
+    return dict(O20)['dispatcher_update_config'](ctx)
+
+
+OBLIGATIONS.append(('dispatcher_principal_designated', _dispatcher_principal))
+
+
 def ORACLE(v, scn, out):
     key = v.get('key') or ''
-    if key.startswith('hub_update_config:'):
+    if key.startswith('hub_update_config:') or key.startswith('dispatcher_UpdateConfig:'):
         from checks.c20 import ORACLE as O20
         return O20(v, scn, out)
     if ':set_owner:' in key or ':accept:' in key:
